@@ -75,14 +75,65 @@ fn mix_obs(h: u64, r: Result<Option<NaiveDate>, ()>) -> u64 {
         Err(()) => mix(h, -2),
     }
 }
-fn block_yo(y0: i32, y1: i32) -> u64 {
+fn block_yo(y0: i32, y1: i32) -> (u64, Option<String>) {
     let mut h = 14695981039346656037u64;
+    let mut bad = None;
     for y in y0..=y1 {
         for o in 0..368u32 {
-            h = mix_obs(h, guard(|| NaiveDate::from_yo_opt(y, o)));
+            let r = guard(|| NaiveDate::from_yo_opt(y, o));
+            if let (Ok(Some(d)), None) = (&r, &bad) {
+                if let Err(e) = derived_views(d) {
+                    bad = Some(e);
+                }
+            }
+            h = mix_obs(h, r);
         }
     }
-    h
+    (h, bad)
+}
+
+/// the views that are defined from the ten observed ones (0-based twins, trait-provided copies,
+/// common-era year, the constructors applied to the date's own fields) agree with them
+pub fn derived_views(d: &NaiveDate) -> Result<(), String> {
+    let r = guard(|| {
+        let iw = d.iso_week();
+        let mut bad: Vec<&'static str> = vec![];
+        if iw.week0().wrapping_add(1) != iw.week() {
+            bad.push("IsoWeek::week0 + 1 != week");
+        }
+        if d.month0() + 1 != d.month() {
+            bad.push("month0 + 1 != month");
+        }
+        if d.day0() + 1 != d.day() {
+            bad.push("day0 + 1 != day");
+        }
+        if d.ordinal0() + 1 != d.ordinal() {
+            bad.push("ordinal0 + 1 != ordinal");
+        }
+        let y = d.year();
+        if d.year_ce() != (y >= 1, if y >= 1 { y as u32 } else { (1 - y) as u32 }) {
+            bad.push("year_ce is not (CE?, year or 1 - year)");
+        }
+        if Datelike::num_days_from_ce(d) != d.num_days_from_ce() || Datelike::iso_week(d) != d.iso_week() {
+            bad.push("trait-provided view differs from the inherent one");
+        }
+        if d.leap_year() != is_leap(y as i64) {
+            bad.push("leap_year disagrees with the Gregorian rule");
+        }
+        if NaiveDate::from_ymd_opt(y, d.month(), d.day()) != Some(*d)
+            || NaiveDate::from_yo_opt(y, d.ordinal()) != Some(*d)
+            || NaiveDate::from_isoywd_opt(iw.year(), iw.week(), d.weekday()) != Some(*d)
+            || NaiveDate::from_num_days_from_ce_opt(d.num_days_from_ce()) != Some(*d)
+        {
+            bad.push("a constructor applied to the date's own fields does not return the date");
+        }
+        bad
+    });
+    match r {
+        Ok(b) if b.is_empty() => Ok(()),
+        Ok(b) => Err(format!("{}: {}", b.join("; "), show_obs(d))),
+        Err(()) => Err(format!("a derived accessor panicked: {}", gs(|| show_obs(d), |s| s))),
+    }
 }
 fn block_ymd(y0: i32, y1: i32) -> u64 {
     let mut h = 14695981039346656037u64;
@@ -214,7 +265,11 @@ pub fn run(c: &mut Ctx) {
         }
     }
     for (y0, y1) in &blocks {
-        c.op(&format!("d.blockyo {y0} {y1}"), &block_yo(*y0, *y1).to_string());
+        let (h, bad) = block_yo(*y0, *y1);
+        c.op(&format!("d.blockyo {y0} {y1}"), &h.to_string());
+        if let Some(e) = bad {
+            c.fail("a derived view (0-based twin, trait copy, year_ce, own-field constructor) disagrees", &e);
+        }
         c.count_n("dates:enumerated-in-digests", ((*y1 - *y0 + 1) as u64) * 365);
     }
     let ymd_blocks: Vec<(i32, i32)> = if c.tier == Tier::Quick {
@@ -353,6 +408,9 @@ pub fn run(c: &mut Ctx) {
             c.op(&format!("d.add {y} {days}"), &match r { Ok(o) => syof(o), Err(()) => "panic".into() });
         }
         // direct oracles
+        if let Err(e) = derived_views(&d) {
+            c.fail("a derived view (0-based twin, trait copy, year_ce, own-field constructor) disagrees", &e);
+        }
         let n = d.num_days_from_ce() as i64;
         if n != day_num(d.year() as i64, d.month() as i64, d.day() as i64) {
             c.fail("num_days_from_ce disagrees with the Gregorian day number of (year, month, day)", &show_obs(&d));
